@@ -1032,7 +1032,7 @@ def fresh_request_buffer(ctx):
         # (helper folded into get_samples: the buffer binding is the first store of self.v in a request)
         ut = ctx.func('voltage.data_stream.DataStream.get_samples')
         ru, Iu = ctx.run(ut, expand=False, heap={'noise_sources': '[]', 'signal_sources': '[]'})
-        vst = [e for e in Iu.events if e.kind == 'store' and e.data.get('target') == 'attr' and e.data.get('name') == 'v'][:1]
+        vst = [e for e in Iu.events if e.kind == 'store' and e.data.get('target') == 'attr' and e.data.get('name') == 'v']
     okv = len(vst) == 1 and not vst[0].pc and vst[0].data['value'].key == ctx.spec(ut, 'xp.zeros(num_samples)').key
     inplace = [e for e in Iu.events if (e.kind == 'call' and e.data.get('name') in ('.fill', '.put', 'copyto', 'numpy.copyto'))
                or (e.kind == 'store' and e.data.get('target') == 'sub' and '.v' in ast.unparse(e.data['base_node']))]
